@@ -150,8 +150,18 @@ pub fn judge(h: &History, recs: &[StepRec]) -> Result<(bool, bool), Failure> {
                 }
             }
         }
-        // payloads handed to the application (buffer holds 4; compare when it cannot have overflowed)
-        if compare_payloads && expected_dl.len() <= 4 && r.session_after.is_some() {
+        // payloads handed to the application (the queue holds D = 4 or 1; compare when it cannot have
+        // overflowed — which payloads survive an overflow is the queue's business, but nothing else
+        // may come out of it)
+        let depth = h.cfg.front.queue_depth();
+        if compare_payloads && expected_dl.len() > depth && r.session_after.is_some() {
+            let mut want = expected_dl.clone();
+            let all_known = r.downlinks.iter().all(|g| want.iter().position(|w| w == g).map(|i| want.remove(i)).is_some());
+            if !all_known || r.downlinks.len() > depth || r.downlinks.is_empty() {
+                return Err(Failure::new("payload", case(), format!("step {}: {} payloads were accepted into a queue of depth {depth}; the application received {:?}, reference decryption gives {:?}", r.index, expected_dl.len(), r.downlinks.iter().map(|(p, d)| (p, hex(d))).collect::<Vec<_>>(), expected_dl.iter().map(|(p, d)| (p, hex(d))).collect::<Vec<_>>())).with_fp("payload-mismatch/overflowed-queue"));
+            }
+        }
+        if compare_payloads && expected_dl.len() <= depth && r.session_after.is_some() {
             let mut got = r.downlinks.clone();
             let mut want = expected_dl.clone();
             got.sort();
